@@ -268,7 +268,12 @@ def do_replay(mod, prop, path):
     for i in range(2):
         vs = mod.replay(rep["replay"])
         obs.append(json.dumps([(v["clause"], v["disc"], v.get("what", "")) for v in vs], sort_keys=True, default=repr))
-    if obs[0] != obs[1]:
+    import re
+
+    def norm(o):  # object addresses in messages differ between runs
+        return re.sub(r"0x[0-9a-fA-F]+", "0x?", o)
+
+    if norm(obs[0]) != norm(obs[1]):
         print("REPLAY-NONDETERMINISTIC property=%s" % prop)
         print(obs[0])
         print(obs[1])
